@@ -206,13 +206,15 @@ package ecscache
 //@   loop 1 invariant optsApart()
 
 //@ func (*Middleware).set
-//@   property C05
+//@   property C05 C04
 //@   requires mw != nil && mw.cloner != nil && ref(mw.cache) != 0 && ref(mw.ecsCache) != 0 && cr != nil && resp != nil
 //@   requires validRRs(resp.Answer) && validRRs(resp.Ns) && validRRs(resp.Extra)
-//@   modifies heap, lastLowest, csets, csetKey, csetVal, hst, ipBytes
+//@   modifies heap, lastLowest, csets, csetKey, csetVal, csetExp, hst, ipBytes
 //@   ensures only-the-matching-cache: forall c any :: c != (respIsECSDependent ? mw.ecsCache : mw.cache) ==> csets[c] == old(csets[c])
 //@   ensures leaves-the-response-alone: old(ecsNone(resp)) ==> ecsNone(resp)
 //@   ensures resp.Extra == old(resp.Extra) && (forall i int :: 0 <= i && i < len(resp.Extra) ==> resp.Extra[i] == old(resp.Extra[i]))
+//@   ensures kept-for-the-lowest-ttl-and-servfail-never-longer: forall c any :: csets[c] == old(csets[c]) + 1 ==>
+//@             csetExp[c] == (mw.overrideTTL && old(resp.Rcode) != 2 ? max(lastLowest * 1000000000, mw.cacheMinTTL) : lastLowest * 1000000000)
 //@   ensures stored-under-its-key: (csets[respIsECSDependent ? mw.ecsCache : mw.cache] == old(csets[respIsECSDependent ? mw.ecsCache : mw.cache]) ||
 //@             (csets[respIsECSDependent ? mw.ecsCache : mw.cache] == old(csets[respIsECSDependent ? mw.ecsCache : mw.cache]) + 1 &&
 //@              csetKey[respIsECSDependent ? mw.ecsCache : mw.cache] == old(keyOf(cr, respIsECSDependent))))
@@ -234,13 +236,14 @@ package ecscache
 //@             (ecs == nil ==> ecsNone(resp))
 
 //@ func (*Middleware).writeUpstreamResponse
-//@   property C05
+//@   property C05 C04
 //@   requires mw != nil && mw.logger != nil && mw.cloner != nil && ref(mw.cache) != 0 && ref(mw.ecsCache) != 0 && ref(rw) != 0
 //@   requires req != nil && len(req.Question) >= 1 && resp != nil && ri != nil && cr != nil && (ecsFam == 1 || ecsFam == 2)
 //@   requires validRRs(resp.Answer) && validRRs(resp.Ns) && validRRs(resp.Extra) && optsOK(resp.Answer) && optsOK(resp.Ns) && optsOK(resp.Extra) && optsApart()
 //@   requires forall i int :: 0 <= i && i < len(resp.Extra) && isOPT(resp.Extra[i]) ==> subnetOptsNonNil(optAt(resp, i))
 //@   requires (arr(resp.Answer) != arr(resp.Ns) || arr(resp.Answer) == 0) && (arr(resp.Answer) != arr(resp.Extra) || arr(resp.Answer) == 0) && (arr(resp.Ns) != arr(resp.Extra) || arr(resp.Ns) == 0)
-//@   modifies heap, ipBytes, hst, lastLowest, csets, csetKey, csetVal, writes, wroteReq, wroteResp, wroteId, wroteRcode, wroteNQ, wroteQ, truncSize, ecsBad, ecsDataErrs
+//@   modifies heap, ipBytes, hst, lastLowest, csets, csetKey, csetVal, csetExp, writes, wroteReq, wroteResp, wroteId, wroteRcode, wroteNQ, wroteQ, truncSize, ecsBad, ecsDataErrs
+//@   atcall set assert stored-with-the-upstream-flags: resp.AuthenticatedData == old(resp.AuthenticatedData) && resp.Rcode == old(resp.Rcode)
 //@   atcall set assert unscoped-answers-are-stored-without-subnet: !respIsECS ==> cr.subnet == zeroPrefix(ecsFam)
 //@   atcall set assert scope-zero-is-never-subnet-specific: scope == 0 ==> !respIsECS
 //@   atcall ResponseWriter.WriteMsg assert subnet-echoed-iff-asked: (ri.ECS != nil ==> ecsSome(resp) &&
@@ -255,7 +258,7 @@ package ecscache
 //@   requires mh != nil && mh.mw != nil && ref(mh.next) != 0 && ref(rw) != 0 && req != nil && len(req.Question) >= 1
 //@   requires mh.mw.logger != nil && mh.mw.cloner != nil && mh.mw.cacheReqPool != nil && ref(mh.mw.cache) != 0 && ref(mh.mw.ecsCache) != 0 && ref(mh.mw.geoIP) != 0
 //@   requires itemsOK() && optsApart()
-//@   modifies heap, ipBytes, hst, lastLowest, csets, csetKey, csetVal, cgetCache, cgetKey, geoSubnet, geoCountry, geoASN, geoSubdiv, geoFam,
+//@   modifies heap, ipBytes, hst, lastLowest, csets, csetKey, csetVal, csetExp, cgetCache, cgetKey, geoSubnet, geoCountry, geoASN, geoSubdiv, geoFam,
 //@            writes, wroteReq, wroteResp, wroteId, wroteRcode, wroteNQ, wroteQ, truncSize, served, servedReq, servedRW, servedErr, stamped, ecsBad, ecsDataErrs
 //@   atcall writeUpstreamResponse assume next-stage-leaves-the-original-request-alone: len(req.Question) >= 1
 //@   atcall writeUpstreamResponse assume upstream-response-is-well-formed: validRRs(resp.Answer) && validRRs(resp.Ns) && validRRs(resp.Extra) &&
